@@ -38,7 +38,7 @@ func (c11) Budget(tier string) core.Budget {
 	if tier == "thorough" {
 		return core.Budget{Runs: 300000, WallCap: 15 * time.Minute}
 	}
-	return core.Budget{Runs: 4000, WallCap: 40 * time.Second}
+	return core.Budget{Runs: 16000, WallCap: 40 * time.Second}
 }
 
 type mkey struct {
